@@ -22,7 +22,7 @@ expat is outside: `xml_reader_total` is about the reader's callbacks over ANY ev
 -/
 import Osmium.Lemmas.HostileText
 import Osmium.Lemmas.Escape
-import Osmium.Model.HostileXml
+import Osmium.Lemmas.HostileXmlUser
 
 namespace Osmium.HostileText.C03
 
@@ -112,6 +112,89 @@ theorem opl_reads_in_bounds_partial :
   intro types s junk h
   rw [cstr_behind s junk h]
 
+/-- the model driver's `rd opl` (Driver/Text.lean) splits lines with linear-time functions; they are
+    the specification's: what the driver computes IS `OplFmt.parseFile` -/
+theorem opl_driver_lines_eq (types : OplFmt.Types) (bs : Bytes) :
+    OplFmt.parseLines types ((specLinesFast bs).map fun l => cstrFast l []) = OplFmt.parseFile types bs := by
+  unfold OplFmt.parseFile
+  rw [specLinesFast_eq]
+  congr 1
+  apply List.map_congr_left
+  intro l _
+  rw [cstrFast_eq]; rfl
+
+theorem bindE_ok_iff {ε α β : Type} (x : Except ε α) (f : α → Except ε β) (b : β) :
+    TextFmt.bindE x f = .ok b ↔ ∃ a, x = .ok a ∧ f a = .ok b := by
+  cases x with
+  | ok a => simp [TextFmt.bindE]
+  | error e => simp [TextFmt.bindE]
+
+theorem setUserCheck_ok (u : Bytes) (h : OplFmt.setUserCheck u = .ok ()) : u.length ≤ 1024 := by
+  unfold OplFmt.setUserCheck at h
+  split at h
+  · cases h
+  · rename_i hn; simpa [OplFmt.maxString] using hn
+
+/-- F13c at full strength for OPL (repair bc6b907): the user name of EVERY object the OPL line
+    parser delivers — for any line, any entity filter — is at most `max_osm_string_length` bytes, so
+    `set_user` never sees a name that its 16-bit size field cannot hold. -/
+theorem opl_user_length_checked (types : OplFmt.Types) (line : Bytes) (o : Osm.Object)
+    (h : OplFmt.parseLine types line = .ok (some o)) : (HostileXml.objUser o).length ≤ 1024 := by
+  have hobj : ∀ k s o, OplFmt.pObject k s = .ok o → (HostileXml.objUser o).length ≤ 1024 := by
+    intro k s o h
+    unfold OplFmt.pObject at h
+    rw [bindE_ok_iff] at h; obtain ⟨⟨id, s1⟩, _, h⟩ := h
+    rw [bindE_ok_iff] at h; obtain ⟨st, _, h⟩ := h
+    rw [bindE_ok_iff] at h; obtain ⟨u, hu, h⟩ := h
+    rw [bindE_ok_iff] at h; obtain ⟨tags, _, h⟩ := h
+    have hl := setUserCheck_ok _ hu
+    cases k with
+    | node => simp only at h; injection h with h; subst h; exact hl
+    | way =>
+      simp only at h
+      rw [bindE_ok_iff] at h; obtain ⟨ns, _, h⟩ := h
+      injection h with h; subst h; exact hl
+    | relation =>
+      simp only at h
+      rw [bindE_ok_iff] at h; obtain ⟨ms, _, h⟩ := h
+      injection h with h; subst h; exact hl
+  have hcs : ∀ s o, OplFmt.pChangeset s = .ok o → (HostileXml.objUser o).length ≤ 1024 := by
+    intro s o h
+    unfold OplFmt.pChangeset at h
+    rw [bindE_ok_iff] at h; obtain ⟨⟨id, s1⟩, _, h⟩ := h
+    rw [bindE_ok_iff] at h; obtain ⟨st, _, h⟩ := h
+    rw [bindE_ok_iff] at h; obtain ⟨u, hu, h⟩ := h
+    rw [bindE_ok_iff] at h; obtain ⟨tags, _, h⟩ := h
+    injection h with h; subst h
+    exact setUserCheck_ok _ hu
+  have hsome : ∀ (x : Except OplFmt.PErr Osm.Object), (TextFmt.bindE x fun o => .ok (some o)) = .ok (some o) → x = .ok o := by
+    intro x hx
+    rw [bindE_ok_iff] at hx
+    obtain ⟨a, ha, hx⟩ := hx
+    injection hx with hx; injection hx with hx; subst hx; exact ha
+  unfold OplFmt.parseLine at h
+  split at h
+  · cases h
+  · split at h
+    · cases h
+    · split at h
+      · split at h
+        · exact hobj _ _ _ (hsome _ h)
+        · cases h
+      · split at h
+        · split at h
+          · exact hobj _ _ _ (hsome _ h)
+          · cases h
+        · split at h
+          · split at h
+            · exact hobj _ _ _ (hsome _ h)
+            · cases h
+          · split at h
+            · split at h
+              · exact hcs _ _ (hsome _ h)
+              · cases h
+            · cases h
+
 /-! ### XML -/
 
 open Osmium.XmlFmt in
@@ -125,46 +208,118 @@ theorem xml_reader_total (types : OplFmt.Types) (evs : List Ev) :
   | ok p => exact Or.inl ⟨p.1, p.2, rfl⟩
   | error e => exact Or.inr ⟨e, rfl⟩
 
-open Osmium.XmlFmt Osmium.HostileXml in
-/-- F13b in the model of the reader's builder calls: `<comment …/>` without `<text>` inside a
-    committed changeset is a violation of the ChangesetDiscussionBuilder protocol (NDEBUG: unpadded
-    comment, `f13b_comment_without_text_traverse_oob` in C03Layout; otherwise a failed assertion) … -/
-theorem f13b_xml_comment_without_text :
-    monitor {} [.start "osm" [("version", [48, 46, 54])], .start "changeset" [("id", [49])], .start "discussion" [],
-                .start "comment" [("uid", [49]), ("user", [117])], .stop "comment", .stop "discussion",
-                .stop "changeset", .stop "osm"] = some .commentWithoutText := by
+/-! ### XML: discussion builder protocol and user-name length (repairs 5690f83, bc6b907) -/
+
+section
+open Osmium.XmlFmt Osmium.HostileXml
+
+def evOsm : Ev := .start "osm" [("version", [48, 46, 54])]
+def evCs : Ev := .start "changeset" [("id", [49])]
+
+/-- `<comment …/>` without `<text>` -/
+def docCommentWithoutText : List Ev :=
+  [evOsm, evCs, .start "discussion" [], .start "comment" [("uid", [49]), ("user", [117])], .stop "comment",
+   .stop "discussion", .stop "changeset", .stop "osm"]
+
+/-- two `<text>` in one `<comment>` -/
+def docTwoTexts : List Ev :=
+  [evOsm, evCs, .start "discussion" [], .start "comment" [("uid", [49])], .start "text" [], .stop "text",
+   .start "text" [], .stop "text", .stop "comment", .stop "discussion", .stop "changeset", .stop "osm"]
+
+/-- an unknown element inside an open `<comment>` (error while a comment is pending) -/
+def docErrorInComment : List Ev :=
+  [evOsm, evCs, .start "discussion" [], .start "comment" [("uid", [49])], .start "foo" []]
+
+/-- THE FULL STATEMENT for the discussion builder (since repair 5690f83): for EVERY event sequence
+    expat may deliver and EVERY entity filter, the reader's calls of the ChangesetDiscussionBuilder
+    keep its (only asserted) protocol — `add_comment` never while a comment is pending,
+    `add_comment_text` only for a pending comment, no call through the null builder pointer; an
+    exception or the end of the input while a comment is pending is handled by the destructors.
+    (Before the repair: refuted by the three witnesses of `f13b_prefix_witnesses`.) -/
+theorem xml_reader_keeps_builder_protocol (types : OplFmt.Types) (evs : List Ev) :
+    monitor types evs = none :=
+  monitor_none types evs
+
+/-- the invariant behind it, for any prefix of the run: the builder's pending flag IS the reader's
+    `m_comment_pending`, a comment is pending only inside `<comment>` / `<text>`, and inside
+    `<discussion>` the builder exists -/
+theorem xml_reader_builder_invariant (types : OplFmt.Types) (st : RSt) (p : Proto) (e : Ev) (st' : RSt)
+    (hi : Inv types st p) (hs : stepEv types st e = .ok st') :
+    ∃ p', protoStep types st p e = .ok p' ∧ Inv types st' p' :=
+  step_inv types st p e st' hi hs
+
+/-- F13c at full strength for XML (repair bc6b907): the user name of EVERY object the XML reader
+    delivers — for any event sequence, any entity filter — is at most `max_osm_string_length`
+    bytes (`set_user` throws std::length_error otherwise: `initObject`, `initChangesetAttrs`), so the
+    16-bit user_size field cannot wrap.  (Before the repair: `f13c_user_size_zero_traverse_oob`.) -/
+theorem xml_user_length_checked (types : OplFmt.Types) (evs : List Ev) (h : Osm.Header) (objs : List Osm.Object)
+    (hr : XmlFmt.read types evs = .ok (h, objs)) : ∀ o ∈ objs, (HostileXml.objUser o).length ≤ 1024 :=
+  read_user_ok types evs h objs hr
+
+/-- non-vacuity of the monitor: a protocol state that is NOT reachable (comment pending at
+    <discussion> level) makes the next <comment> a misuse -/
+example : protoStep {} { stack := [.discussion, .changeset, .osm] } { present := true, pending := true }
+    (.start "comment" []) = .error .commentWhilePending := by decide
+
+/-- F13b NOW: the comment gets an empty text (`add_comment_text("")` at `</comment>`), the builder
+    protocol is kept, the changeset is delivered with that comment … -/
+theorem f13b_xml_comment_without_text_now :
+    monitor {} docCommentWithoutText = none ∧
+    read {} docCommentWithoutText =
+      .ok ({}, [.changeset 1 0 0 0 0 0 [] Osm.Location.undefined Osm.Location.undefined [] [⟨0, 1, [117], []⟩]]) := by
   decide +kernel
 
-open Osmium.XmlFmt Osmium.HostileXml in
-/-- … while the reader model itself (what is built, not how) accepts the document -/
-theorem f13b_xml_reader_accepts :
-    (read {} [.start "osm" [("version", [48, 46, 54])], .start "changeset" [("id", [49])], .start "discussion" [],
-              .start "comment" [("uid", [49]), ("user", [117])], .stop "comment", .stop "discussion",
-              .stop "changeset", .stop "osm"]).toOption.isSome = true := by
+/-- … a second `<text>` is an xml_error, and an error inside an open comment is just that error
+    (the builder's destructor finishes the pending comment) -/
+theorem xml_two_texts_now : monitor {} docTwoTexts = none ∧ read {} docTwoTexts = .error .xml := by
   decide +kernel
 
-open Osmium.XmlFmt Osmium.HostileXml in
-/-- a second `<text>` in one `<comment>`: `add_comment_text` without a pending comment -/
-theorem xml_two_texts_misuse :
-    monitor {} [.start "osm" [("version", [48, 46, 54])], .start "changeset" [("id", [49])], .start "discussion" [],
-                .start "comment" [("uid", [49])], .start "text" [], .stop "text", .start "text" [], .stop "text",
-                .stop "comment", .stop "discussion", .stop "changeset", .stop "osm"] = some .textWithoutComment := by
+theorem xml_error_in_open_comment_now :
+    monitor {} docErrorInComment = none ∧ read {} docErrorInComment = .error .xml := by
   decide +kernel
 
-open Osmium.XmlFmt Osmium.HostileXml in
-/-- F13c: a `user` attribute of 65535 bytes on a node: user_size wraps to 0 in every build -/
-theorem f13c_xml_user_too_long :
-    monitor {} [.start "osm" [("version", [48, 46, 54])],
-                .start "node" [("id", [49]), ("user", List.replicate 65535 117)], .stop "node", .stop "osm"] =
-      some (.userTooLong true) := by
+/-- BEFORE repair 5690f83 (regression documentation; the three inputs are replayed on the real
+    Reader by the hostile tier, corpus/C03/xml_findings.ops): each of them drove the builder out
+    of its protocol -/
+theorem f13b_prefix_witnesses :
+    Pre.monitor {} docCommentWithoutText = some .commentWithoutText ∧
+    Pre.monitor {} docTwoTexts = some .textWithoutComment ∧
+    Pre.monitor {} docErrorInComment = some .pendingAtDestruction := by
   decide +kernel
 
-open Osmium.XmlFmt Osmium.HostileXml in
-/-- the well-formed discussion raises nothing (non-vacuity of the monitor) -/
+/-- F13c NOW (repair bc6b907): a `user` attribute longer than `max_osm_string_length` is a
+    std::length_error — on a node, on a changeset and on a discussion comment; 1024 bytes pass
+    (the 65535-byte inputs of the finding are replayed on the real Reader by the hostile tier).
+    (Before: assertion, or with NDEBUG truncation to 16 bits — 65535 bytes wrapped user_size to 0,
+    `f13c_user_size_zero_traverse_oob` in Props/C03Layout.lean.) -/
+theorem f13c_xml_user_too_long_now :
+    read {} [evOsm, .start "node" [("id", [49]), ("user", List.replicate 1025 117)], .stop "node", .stop "osm"]
+      = .error .length ∧
+    read {} [evOsm, .start "changeset" [("id", [49]), ("user", List.replicate 1025 117)], .stop "changeset", .stop "osm"]
+      = .error .length ∧
+    read {} [evOsm, evCs, .start "discussion" [], .start "comment" [("user", List.replicate 1025 117)]]
+      = .error .length ∧
+    (read {} [evOsm, .start "node" [("id", [49]), ("user", List.replicate 1024 117)], .stop "node", .stop "osm"]).toOption.isSome
+      = true := by
+  decide +kernel
+
+/-- the same guard in the OPL reader: `builder.set_user(user)` after the attribute loop -/
+theorem f13c_opl_user_too_long_now :
+    OplFmt.parseLine {} ([0x6e, 0x31, 0x20, 0x75] ++ List.replicate 1025 117) = .error .length ∧
+    OplFmt.parseLine {} ([0x63, 0x31, 0x20, 0x75] ++ List.replicate 1025 117) = .error .length ∧
+    (OplFmt.parseLine {} ([0x6e, 0x31, 0x20, 0x75] ++ List.replicate 1024 117)).toOption.isSome = true := by
+  decide +kernel
+
+/-- the well-formed discussion raises nothing (non-vacuity of the monitors) -/
 example :
-    monitor {} [.start "osm" [("version", [48, 46, 54])], .start "changeset" [("id", [49])], .start "discussion" [],
+    monitor {} [evOsm, evCs, .start "discussion" [],
+                .start "comment" [("uid", [49]), ("user", [117])], .start "text" [], .chars [116], .stop "text",
+                .stop "comment", .stop "discussion", .stop "changeset", .stop "osm"] = none ∧
+    Pre.monitor {} [evOsm, evCs, .start "discussion" [],
                 .start "comment" [("uid", [49]), ("user", [117])], .start "text" [], .chars [116], .stop "text",
                 .stop "comment", .stop "discussion", .stop "changeset", .stop "osm"] = none := by
   decide +kernel
+
+end
 
 end Osmium.HostileText.C03
